@@ -323,6 +323,8 @@ enum Cause {
     FinishPanic,
     Cancel(u32),
     TimeoutFail(u32),
+    /// `started` of the second incarnation fails (needs a restart to manifest)
+    RestartFail(FailHow),
     /// a non-fatal handler timeout and a repeating timer whose tick handler exceeds it
     TimeoutCarryOn(u32),
 }
@@ -336,8 +338,9 @@ pub fn c02(big: bool) -> BoxedStrategy<Case> {
         1 => Just(Cause::StopPanic),
         3 => (0u32..14).prop_map(Cause::Cancel),
         2 => (1u32..6).prop_map(Cause::TimeoutFail),
+        2 => prop_oneof![Just(FailHow::Err), Just(FailHow::Panic)].prop_map(Cause::RestartFail),
     ];
-    let w = OpWeights { stop: 3, halt: 2, try_stop: 2, await_: 3, drop: 3, join: 2, consume: 1, call_drop: 7, max_sleep: 8, ..MSG_WEIGHTS };
+    let w = OpWeights { stop: 3, halt: 2, try_stop: 2, await_: 3, drop: 3, join: 2, consume: 1, call_drop: 7, restart: 3, max_sleep: 8, ..MSG_WEIGHTS };
     let op = mixed_ops(w, vec![
         (5, (h(), work(2, 6), 1u8..4).prop_map(|(h, work, extra)| ClientOp::SendRepoll { h, work, extra }).boxed()),
         (2, h().prop_map(|h| ClientOp::JoinStash { h }).boxed()),
@@ -352,6 +355,7 @@ pub fn c02(big: bool) -> BoxedStrategy<Case> {
             match cause {
                 Cause::None | Cause::FinishPanic | Cause::TimeoutCarryOn(_) => {}
                 Cause::StartFail(how) => faults.push(Fault::StartFail { actor: 0, inc: 0, how }),
+                Cause::RestartFail(how) => faults.push(Fault::StartFail { actor: 0, inc: 1, how }),
                 Cause::HandlerPanic(kth) => faults.push(Fault::HandlerPanic { actor: 0, kth }),
                 Cause::StopPanic => faults.push(Fault::StopPanic { actor: 0 }),
                 Cause::Cancel(j) => faults.push(Fault::CancelActor { actor: 0, before_poll: j }),
@@ -545,8 +549,10 @@ pub fn c05(big: bool) -> BoxedStrategy<Case> {
     let started = prop_oneof![
         2 => Just(vec![]),
         3 => vec(prop_oneof![4 => light_timer().prop_map(Step::AddTimer), 1 => (0u8..2).prop_map(Step::Subscribe)], 1..=3),
+        // a delayed task that runs for a while once it has fired
+        1 => (1u32..=10, 5u32..=40).prop_map(|(ticks, d)| vec![Step::AddTimer(TimerSpec { kind: TimerKind::DelayedExec, ticks, work: vec![Step::Sleep(d)] })]),
     ];
-    (prop_oneof![5 => plain_spawn(false), 1 => proptest::option::of(mailbox()).prop_map(|builder| SpawnSpec::Register { builder })], started, 1usize..=3)
+    (prop_oneof![10 => plain_spawn(false), 2 => proptest::option::of(mailbox()).prop_map(|builder| SpawnSpec::Register { builder }), 2 => stream_spawn()], started, 1usize..=3)
         .prop_flat_map(move |(spawn, started, n)| {
             let owning = spawn.owning();
             (
@@ -555,7 +561,20 @@ pub fn c05(big: bool) -> BoxedStrategy<Case> {
                 // few handles so that the last one is really dropped by the clients
                 vec(vec(grant_kind(4), 0..=2), n),
                 Just(owning),
-                vec(vec(mixed_ops(base, vec![(8, (0u8..2, any::<bool>()).prop_map(|(topic, st)| ClientOp::Publish { how: if st { PubHow::Static } else { PubHow::ViaAddr }, topic, id: 0 }).boxed())]), 2..=max_ops), n..=n),
+                vec(
+                    vec(
+                        mixed_ops(
+                            base,
+                            vec![
+                                (8, (0u8..2, any::<bool>()).prop_map(|(topic, st)| ClientOp::Publish { how: if st { PubHow::Static } else { PubHow::ViaAddr }, topic, id: 0 }).boxed()),
+                                // only meaningful for a stream-attached actor (its stream never ends: the handles decide)
+                                (4, (any::<u8>(), 0u8..4).prop_map(|(stream, n)| ClientOp::Feed { stream, n }).boxed()),
+                            ],
+                        ),
+                        2..=max_ops,
+                    ),
+                    n..=n,
+                ),
                 // tails: drop what is left, then probe the weak handles
                 vec(
                     vec(
@@ -769,7 +788,7 @@ pub fn c10(big: bool) -> BoxedStrategy<Case> {
             // termination "by any cause": failures too
             let mut faults = vec![];
             match cause {
-                Cause::None | Cause::FinishPanic => {}
+                Cause::None | Cause::FinishPanic | Cause::RestartFail(_) => {}
                 Cause::TimeoutCarryOn(t) => {
                     let (mailbox, owning) = (spawn.mailbox(), spawn.owning());
                     spawn = SpawnSpec::Build { mailbox, strategy: spawn.strategy(), timeout: Some(t), fail_on_timeout: false, owning };
@@ -1003,6 +1022,7 @@ pub fn c15(big: bool) -> BoxedStrategy<Case> {
         1 => Just(SpawnSpec::Spawn),
         1 => Just(SpawnSpec::SpawnOwning),
         4 => (mailbox(), any::<bool>()).prop_map(|(mailbox, owning)| SpawnSpec::Build { mailbox, strategy: RStrat::Default, timeout: None, fail_on_timeout: false, owning }),
+        1 => (mailbox(), any::<bool>()).prop_map(|(mailbox, owning)| SpawnSpec::Build { mailbox, strategy: RStrat::Recreate, timeout: None, fail_on_timeout: false, owning }),
     ];
     let base = OpWeights { send: 16, call: 16, ping: 2, convert: 22, yield_: 4, sleep: 14, give: 3, drop: 10, stop: 0, max_sleep: 10, ..MSG_WEIGHTS };
     let op = mixed_ops(base, vec![(14, msg_op(1, 2, ctx_work(2, 1, 6))), (10, h().prop_map(|h| ClientOp::Upgrade { h }).boxed())]);
@@ -1036,7 +1056,9 @@ pub fn c15(big: bool) -> BoxedStrategy<Case> {
                     grants.push(Grant { client: c, actor: 1, kind: HKind::WeakCaller });
                 }
             }
-            finalize(Case { family: Family::C15, actors, default_beh: vec![], grants, clients, faults: vec![], schedule, settle: 0 })
+            // a value recreated from Default behaves like the one it replaces (timers in started)
+            let default_beh = vec![Behavior { started, ..Default::default() }];
+            finalize(Case { family: Family::C15, actors, default_beh, grants, clients, faults: vec![], schedule, settle: 0 })
         })
         .boxed()
 }
@@ -1077,7 +1099,13 @@ pub fn c16(big: bool) -> BoxedStrategy<Case> {
                     None => SpawnSpec::Spawn,
                     Some(mailbox) => SpawnSpec::Build { mailbox, strategy: RStrat::Default, timeout: None, fail_on_timeout: false, owning: false },
                 };
-                actors.push(ActorSpec { kind, spawn, parent: Some(ChildOf { parent, under, outside, also_under }), beh: Behavior::default(), peer: None });
+                // some children run timers of their own (which must not keep them alive once released)
+                let started = match psel % 7 {
+                    0 => vec![Step::AddTimer(TimerSpec { kind: TimerKind::Interval, ticks: 1 + (psel as u32 % 5), work: vec![] })],
+                    1 => vec![Step::AddTimer(TimerSpec { kind: TimerKind::IntervalWith, ticks: 1 + (psel as u32 % 5), work: vec![] })],
+                    _ => vec![],
+                };
+                actors.push(ActorSpec { kind, spawn, parent: Some(ChildOf { parent, under, outside, also_under }), beh: Behavior { started, ..Default::default() }, peer: None });
             }
             let mut faults = vec![];
             match cause {
@@ -1183,7 +1211,12 @@ pub fn c08(big: bool) -> BoxedStrategy<Case> {
 
 pub fn c09(big: bool) -> BoxedStrategy<Case> {
     let max_ops = if big { 12 } else { 8 };
-    let sub_spawn = prop_oneof![3 => Just(SpawnSpec::Spawn), 1 => (0u8..=2).prop_map(|n| SpawnSpec::Build { mailbox: Mailbox::Bounded(n), strategy: RStrat::Default, timeout: None, fail_on_timeout: false, owning: false })];
+    let sub_spawn = prop_oneof![
+        6 => Just(SpawnSpec::Spawn),
+        2 => (0u8..=2).prop_map(|n| SpawnSpec::Build { mailbox: Mailbox::Bounded(n), strategy: RStrat::Default, timeout: None, fail_on_timeout: false, owning: false }),
+        // a subscriber that is recreated from Default on restart keeps its identity - and its subscriptions
+        1 => mailbox().prop_map(|mailbox| SpawnSpec::Build { mailbox, strategy: RStrat::Recreate, timeout: None, fail_on_timeout: false, owning: false }),
+    ];
     let sub_started = prop_oneof![2 => Just(vec![]), 5 => Just(vec![Step::Subscribe(0)]), 1 => Just(vec![Step::Subscribe(1)]), 2 => Just(vec![Step::Subscribe(0), Step::Subscribe(1)])];
     let topic = prop_oneof![5 => Just(0u8), 1 => Just(1u8)];
     let how = prop_oneof![Just(PubHow::Static), Just(PubHow::ViaAddr)];
@@ -1194,6 +1227,7 @@ pub fn c09(big: bool) -> BoxedStrategy<Case> {
         8 => topic.clone().prop_map(|topic| ClientOp::BrokerPing { topic }),
         2 => h().prop_map(|h| ClientOp::Stop { h }),
         2 => h().prop_map(|h| ClientOp::Drop { h }),
+        4 => h().prop_map(|h| ClientOp::Restart { h }),
         8 => (h(), topic, any::<bool>()).prop_map(|(h, topic, call)| {
             let work = vec![Step::Publish { topic, id: 0 }];
             if call { ClientOp::Call { h, work } } else { ClientOp::Send { h, work } }
@@ -1205,7 +1239,15 @@ pub fn c09(big: bool) -> BoxedStrategy<Case> {
     (vec((sub_spawn, sub_started), 1..=4), 1usize..=3)
         .prop_flat_map(move |(subs, n)| (Just(subs), vec(vec(op.clone(), 3..=max_ops), n..=n), schedule(if big { 128 } else { 64 })))
         .prop_map(|(subs, mut clients, schedule)| {
-            let actors: Vec<ActorSpec> = subs.into_iter().map(|(spawn, started)| ActorSpec { kind: 0, spawn, parent: None, beh: Behavior { started, ..Default::default() }, peer: None }).collect();
+            let mut actors: Vec<ActorSpec> = subs.into_iter().map(|(spawn, started)| ActorSpec { kind: 0, spawn, parent: None, beh: Behavior { started, ..Default::default() }, peer: None }).collect();
+            // values recreated from Default behave like the value they replace (one behaviour per kind)
+            let mut default_beh = vec![];
+            if let Some(first) = actors.iter().find(|a| a.spawn.strategy() == RStrat::Recreate).map(|a| a.beh.clone()) {
+                for a in actors.iter_mut().filter(|a| a.spawn.strategy() == RStrat::Recreate) {
+                    a.beh = first.clone();
+                }
+                default_beh = vec![first];
+            }
             let mut grants = vec![];
             for c in 0..clients.len() {
                 for a in 0..actors.len() {
@@ -1233,7 +1275,7 @@ pub fn c09(big: bool) -> BoxedStrategy<Case> {
                     }
                 }
             }
-            let mut c = finalize(Case { family: Family::C09, actors, default_beh: vec![], grants, clients, faults: vec![], schedule, settle: 0 });
+            let mut c = finalize(Case { family: Family::C09, actors, default_beh, grants, clients, faults: vec![], schedule, settle: 0 });
             c.settle += 20;
             c
         })
